@@ -1,5 +1,6 @@
 import os
 import os.path
+import re
 import struct
 from io import BytesIO
 from typing import BinaryIO, Literal, Tuple
@@ -292,11 +293,14 @@ class ImageWriter:
         return False
 
     def _create_unique_image_name(self, image: LTImage, ext: str) -> Tuple[str, str]:
-        name = image.name + ext
+        # The image name comes from the document: it must not be able to
+        # point outside of the output directory.
+        image_name = re.sub(r"[/\\\0]", "_", image.name)
+        name = image_name + ext
         path = os.path.join(self.outdir, name)
         img_index = 0
         while os.path.exists(path):
-            name = "%s.%d%s" % (image.name, img_index, ext)
+            name = "%s.%d%s" % (image_name, img_index, ext)
             path = os.path.join(self.outdir, name)
             img_index += 1
         return name, path
